@@ -1250,7 +1250,8 @@ CHECKS = {
     "C01": dict(
         props=["C01", "Tie"],
         parts=[engine_part("delivery", 48, 600, 45, claim_c01, ["deliveries_created", "pull_nonempty", "redelivery", "nack_rescheduled"]),
-               stream_part(STREAM_C01), part_publish_faults, part_tx_wrapper],
+               stream_part(STREAM_C01), part_publish_faults, part_tx_wrapper,
+               engine_part(("fanout230", "fanout450"), 1, 1, 250, claim_c01, ["deliveries_created"])],
         rule="[+ publish under fault: with a storage fault at every statement position (sampled for a 150-message batch) a Publish that answers OK has stored everything] [+ stream part: a message nacked on a stream (Nack list or zero deadline, also through the StreamingPull RPC) must not end up acknowledged] generated histories (profile delivery: publish/pull/ack/modack/nack/seek/jobs/clock jumps) against the production gRPC server; every step is checked "
              "locally: model step from the implementation's pre-state vs response and full five-table post-state; non-trivial = deliveries created, non-empty pulls, redeliveries",
         assumptions=BUS_ASSUME),
